@@ -390,6 +390,16 @@ def run_check(prop, tier, replay, families, teeth=(), cap_quick=60, cap_thorough
                 out.report({"kind": "nonconformance", "sig": b["sig"]},
                            f"the implementation trace is not a behaviour of LanceCommit: {b['sig']} {b['detail']} "
                            f"(family {sc.get('family')})", payload)
+        for hb in rep.get("hbad", []):
+            sc = by_id.get(hb["scn"], {})
+            bad_scn.add(hb["scn"])
+            sig = {"invariant": "PublishedManifestChanged", "via": "recorded-hash"}
+            payload = {"scenario": sc, "bad": hb, "trace_deviations": list(dev)}
+            if prop == "C02":
+                out.report(sig, f"the content recorded at the final manifest path of version(s) {hb['versions']} changed "
+                                f"(or vanished) at the {hb['op']} call of actor {hb['a']} (family {sc.get('family')})", payload)
+            else:
+                informational[json.dumps(sig)] = informational.get(json.dumps(sig), 0) + 1
         if len(samples) < 4 and part:
             # one scenario with its recorded trace, verbatim (snapshots trimmed)
             want = part[len(part) // 2]["id"]
@@ -444,6 +454,9 @@ def _replay_one(prop, tier, replay, binary, out, t0):
     sc = case["scenario"]
     dev = tuple(case.get("trace_deviations", sc.get("asbuilt", ())))
     rep, tf, sf, tm = replay_and_validate(prop, binary, "replay", [sc], dev=dev)
+    for hb in rep.get("hbad", []):
+        print("replay:", json.dumps(hb))
+        out.report({"invariant": "PublishedManifestChanged", "via": "recorded-hash"}, f"replayed: {hb}", case)
     for b in rep["bad"]:
         print("replay:", json.dumps(b))
         out.report(payload.get("signature", {"kind": b["kind"], "sig": b["sig"]}), f"replayed: {b}", case)
